@@ -664,7 +664,7 @@ def ExtE (e e' : ExprInfo) : Prop :=
   strip e = strip e' ∧ (e'.ref = e.ref ∨ (e.ref = none ∧ e.refName.isSome = true))
 
 def Ext (l l' : List ExprInfo) : Prop :=
-  l.length = l'.length ∧ ∀ j e e', l[j]? = some e → l'[j]? = some e' → ExtE e e'
+  l.length = l'.length ∧ ∀ (j : Nat) (e e' : ExprInfo), l[j]? = some e → l'[j]? = some e' → ExtE e e'
 
 theorem ExtE.refl (e : ExprInfo) : ExtE e e := ⟨rfl, Or.inl rfl⟩
 
@@ -685,8 +685,12 @@ theorem ExtE.trans {a b c : ExprInfo} (h₁ : ExtE a b) (h₂ : ExtE b c) : ExtE
     · exact Or.inr ⟨e1 ▸ n2, hn ▸ s2⟩
   · exact Or.inr ⟨n1, s1⟩
 
-theorem Ext.refl (l : List ExprInfo) : Ext l l :=
-  ⟨rfl, fun _ e e' h h' => by rw [h] at h'; cases h'; exact ExtE.refl e⟩
+theorem Ext.refl (l : List ExprInfo) : Ext l l := by
+  refine ⟨rfl, ?_⟩
+  intro j e e' h h'
+  rw [h] at h'
+  cases h'
+  exact ExtE.refl e
 
 theorem getElem?_some_of_length {l l' : List ExprInfo} (hl : l.length = l'.length) {j : Nat} {e : ExprInfo}
     (h : l[j]? = some e) : ∃ e', l'[j]? = some e' := by
@@ -702,7 +706,8 @@ theorem Ext.get {l l' : List ExprInfo} (h : Ext l l') {j : Nat} {e : ExprInfo} (
 
 theorem Ext.get_none {l l' : List ExprInfo} (h : Ext l l') {j : Nat} (he : l[j]? = none) : l'[j]? = none := by
   rw [List.getElem?_eq_none_iff] at he ⊢
-  rw [← h.1]; exact he
+  have := h.1
+  omega
 
 theorem Ext.trans {a b c : List ExprInfo} (h₁ : Ext a b) (h₂ : Ext b c) : Ext a c := by
   refine ⟨h₁.1.trans h₂.1, ?_⟩
@@ -840,11 +845,10 @@ theorem body_settled (ks : Nat → String) (p : SeedPerm) {F : State → Nat →
           | cons o os =>
             simp only [] at h ⊢
             rw [HA st o h]
-        · simp only [hk] at h ⊢
+        · simp only [hk, Bool.false_eq_true, if_false] at h ⊢
           by_cases hf : firstNamed st.exprs ops = true
           · simp only [hf, if_true] at h ⊢
             rw [threadMap_settled HA ops st h]
-            rfl
           · simp only [hf]
             rfl
 
@@ -855,12 +859,12 @@ theorem makeRef_settled (ks : Nat → String) (p : SeedPerm) : ∀ (fuel : Nat) 
   | zero => intro st i _; rfl
   | succ n ih =>
     intro st i h
-    simp only [makeRef, pureName, settled] at h ⊢
+    simp only [makeRef, pureName]
     cases he : st.exprs[i]? with
     | none => rfl
     | some e =>
-      rw [he] at h
-      exact body_settled ks p ih st i e h
+      simp only [settled, he] at h
+      exact body_settled ks p (S := fun l => settled l n) (N := fun l => pureName ks l n) ih st i e h
 
 /-! Lemma B: settledness and the cached names survive further caching. -/
 
@@ -904,7 +908,7 @@ theorem body_mono (ks : Nat → String) {S : List ExprInfo → Nat → Bool} {N 
             simp only [] at h ⊢
             obtain ⟨a, b⟩ := HB o h
             exact ⟨a, by rw [b]⟩
-        · simp only [hk] at h ⊢
+        · simp only [hk, Bool.false_eq_true, if_false] at h ⊢
           rw [firstNamed_ext hx ops]
           by_cases hf : firstNamed l ops = true
           · simp only [hf, if_true] at h ⊢
@@ -915,8 +919,7 @@ theorem body_mono (ks : Nat → String) {S : List ExprInfo → Nat → Bool} {N 
               exact (HB o (h o ho)).1
             · have : ops.map (N l') = ops.map (N l) := List.map_congr_left (fun o ho => (HB o (h o ho)).2)
               rw [this]
-          · simp only [hf]
-            exact ⟨trivial, rfl⟩
+          · simp [hf]
 
 theorem settled_mono (ks : Nat → String) {l l' : List ExprInfo} (hx : Ext l l') : ∀ (fuel i : Nat),
     settled l fuel i = true → settled l' fuel i = true ∧ pureName ks l' fuel i = pureName ks l fuel i := by
@@ -925,14 +928,347 @@ theorem settled_mono (ks : Nat → String) {l l' : List ExprInfo} (hx : Ext l l'
   | zero => intro i _; exact ⟨rfl, rfl⟩
   | succ n ih =>
     intro i h
-    simp only [settled, pureName] at h ⊢
     cases he : l[i]? with
-    | none => rw [hx.get_none he]; exact ⟨rfl, rfl⟩
+    | none => simp only [settled, pureName, hx.get_none he, he]; exact ⟨trivial, trivial⟩
     | some e =>
       obtain ⟨e', he', x⟩ := hx.get he
-      rw [he] at h
-      rw [he']
-      exact body_mono ks hx ih x h
+      simp only [settled, he] at h
+      simp only [settled, pureName, he, he']
+      exact body_mono ks (S := fun l => settled l n) (N := fun l => pureName ks l n) hx ih x h
+
+/-! Lemma C: `make_ref` only adds caches, and leaves its argument settled with the returned name. -/
+
+theorem ExtE_auto {e e' : ExprInfo} (x : ExtE e e') (hr : e.ref = none) (hn : e.refName = none) : e' = e := by
+  obtain ⟨h1, h2⟩ := x
+  obtain ⟨a, b, c, d, f, g, r⟩ := e
+  obtain ⟨a', b', c', d', f', g', r'⟩ := e'
+  simp only at hr hn
+  subst hr hn
+  simp only [strip, ExprInfo.mk.injEq] at h1
+  have : r' = none := by
+    rcases h2 with h | ⟨_, h⟩
+    · exact h
+    · simp at h
+  subst this
+  simp [h1]
+
+theorem threadMap_ext {F : State → Nat → State × String} {S : List ExprInfo → Nat → Bool}
+    {N : List ExprInfo → Nat → String}
+    (HC : ∀ st o, Ext st.exprs (F st o).1.exprs ∧ S (F st o).1.exprs o = true ∧ (F st o).2 = N (F st o).1.exprs o)
+    (HB : ∀ l l' o, Ext l l' → S l o = true → S l' o = true ∧ N l' o = N l o) :
+    ∀ (ops : List Nat) (st : State),
+      Ext st.exprs (threadMap F st ops).1.exprs ∧
+      ops.all (S (threadMap F st ops).1.exprs) = true ∧
+      (threadMap F st ops).2 = ops.map (N (threadMap F st ops).1.exprs) := by
+  intro ops
+  induction ops with
+  | nil => intro st; exact ⟨Ext.refl _, rfl, rfl⟩
+  | cons o os ih =>
+    intro st
+    obtain ⟨x1, s1, n1⟩ := HC st o
+    obtain ⟨x2, s2, n2⟩ := ih (F st o).1
+    obtain ⟨s1', n1'⟩ := HB _ _ o x2 s1
+    simp only [threadMap, List.all_cons, List.map_cons, Bool.and_eq_true]
+    exact ⟨x1.trans x2, ⟨s1', s2⟩, by rw [n1, n1', n2]⟩
+
+theorem body_ext (ks : Nat → String) (p : SeedPerm) {F : State → Nat → State × String}
+    {S : List ExprInfo → Nat → Bool} {N : List ExprInfo → Nat → String}
+    (HC : ∀ st o, Ext st.exprs (F st o).1.exprs ∧ S (F st o).1.exprs o = true ∧ (F st o).2 = N (F st o).1.exprs o)
+    (HB : ∀ l l' o, Ext l l' → S l o = true → S l' o = true ∧ N l' o = N l o)
+    (st : State) (id : Nat) (e : ExprInfo) (he : st.exprs[id]? = some e) :
+    Ext st.exprs (makeRefBody ks p F st id e).1.exprs ∧
+    ∀ e', (makeRefBody ks p F st id e).1.exprs[id]? = some e' →
+      settledBody (S (makeRefBody ks p F st id e).1.exprs) (makeRefBody ks p F st id e).1.exprs e' = true ∧
+      (makeRefBody ks p F st id e).2 =
+        pureBody ks (N (makeRefBody ks p F st id e).1.exprs) (makeRefBody ks p F st id e).1.exprs e' := by
+  -- the recursive cases: the state moved from `st` to an extension `l'`, the entry at `id` is still `e`
+  have same : ∀ {l' : List ExprInfo}, Ext st.exprs l' → e.ref = none → e.refName = none →
+      ∀ e', l'[id]? = some e' → e' = e := by
+    intro l' hx hr hn e' he'
+    obtain ⟨e'', he'', x⟩ := hx.get he
+    rw [he'] at he''
+    cases he''
+    exact ExtE_auto x hr hn
+  obtain ⟨kind, pl, ops, ik, og, rn, rf⟩ := e
+  cases rf with
+  | some r =>
+    refine ⟨Ext.refl _, ?_⟩
+    intro e' he'
+    have h2 : (makeRefBody ks p F st id
+      { kind := kind, payload := pl, operands := ops, intkey := ik, origin := og, refName := rn, ref := some r }).1 = st := rfl
+    rw [h2, he] at he'
+    cases he'
+    exact ⟨rfl, rfl⟩
+  | none =>
+    cases rn with
+    | some n =>
+      simp only [makeRefBody, register, commit]
+      refine ⟨Ext_updAt (fun e1 he1 => ?_), ?_⟩
+      · rw [he] at he1
+        cases he1
+        exact ⟨rfl, Or.inr ⟨rfl, rfl⟩⟩
+      · intro e' he'
+        rw [updAt_get, if_pos rfl, he] at he'
+        simp only [Option.map_some, Option.some.injEq] at he'
+        subst he'
+        exact ⟨rfl, rfl⟩
+    | none =>
+      cases pl with
+      | sym n t =>
+        refine ⟨Ext.refl _, ?_⟩
+        intro e' he'
+        have : e' = _ := same (Ext.refl _) rfl rfl e' he'
+        subst this
+        exact ⟨rfl, rfl⟩
+      | const a b =>
+        refine ⟨Ext.refl _, ?_⟩
+        intro e' he'
+        have : e' = _ := same (Ext.refl _) rfl rfl e' he'
+        subst this
+        exact ⟨rfl, rfl⟩
+      | node =>
+        by_cases hk : (kind == "absolute") = true
+        · cases ops with
+          | nil =>
+            simp only [makeRefBody, hk, if_true]
+            refine ⟨Ext.refl _, ?_⟩
+            intro e' he'
+            have : e' = _ := same (Ext.refl _) rfl rfl e' he'
+            subst this
+            simp [settledBody, pureBody, hk]
+          | cons o os =>
+            simp only [makeRefBody, hk, if_true]
+            obtain ⟨x1, s1, n1⟩ := HC st o
+            refine ⟨x1, ?_⟩
+            intro e' he'
+            have : e' = _ := same x1 rfl rfl e' he'
+            subst this
+            simp [settledBody, pureBody, hk, s1, n1]
+        · by_cases hf : firstNamed st.exprs ops = true
+          · simp only [makeRefBody, hk, hf, if_true, Bool.false_eq_true, if_false]
+            obtain ⟨x1, s1, n1⟩ := threadMap_ext HC HB ops st
+            refine ⟨x1, ?_⟩
+            intro e' he'
+            have : e' = _ := same x1 rfl rfl e' he'
+            subst this
+            have hf' := firstNamed_ext x1 ops
+            simp [settledBody, pureBody, hk, hf', hf, s1, n1]
+          · simp only [makeRefBody, hk, hf, Bool.false_eq_true, if_false]
+            refine ⟨Ext.refl _, ?_⟩
+            intro e' he'
+            have : e' = _ := same (Ext.refl _) rfl rfl e' he'
+            subst this
+            simp [settledBody, pureBody, hk, hf]
+
+theorem makeRef_ext (ks : Nat → String) (p : SeedPerm) : ∀ (fuel : Nat) (st : State) (i : Nat),
+    Ext st.exprs (makeRef ks p fuel st i).1.exprs ∧
+    settled (makeRef ks p fuel st i).1.exprs fuel i = true ∧
+    (makeRef ks p fuel st i).2 = pureName ks (makeRef ks p fuel st i).1.exprs fuel i := by
+  intro fuel
+  induction fuel with
+  | zero => intro st i; exact ⟨Ext.refl _, rfl, rfl⟩
+  | succ n ih =>
+    intro st i
+    cases he : st.exprs[i]? with
+    | none =>
+      have h2 : makeRef ks p (n + 1) st i = (st, "?") := by simp only [makeRef, he]
+      rw [h2]
+      simp only [settled, pureName, he]
+      exact ⟨Ext.refl _, trivial, trivial⟩
+    | some e =>
+      have h2 : makeRef ks p (n + 1) st i = makeRefBody ks p (makeRef ks p n) st i e := by
+        simp only [makeRef, he]
+      rw [h2]
+      obtain ⟨x, hb⟩ := body_ext ks p (S := fun l => settled l n) (N := fun l => pureName ks l n) ih
+        (fun l l' o hx hs => settled_mono ks hx n o hs) st i e he
+      obtain ⟨e', he', _⟩ := x.get he
+      obtain ⟨a, b⟩ := hb e' he'
+      refine ⟨x, ?_, ?_⟩
+      · simp only [settled, he']; exact a
+      · simp only [pureName, he']; exact b
+
+theorem fuelOf_ext {st st' : State} (h : Ext st.exprs st'.exprs) : fuelOf st' = fuelOf st := by
+  simp [fuelOf, h.1]
+
+theorem runRefs_ext (ks : Nat → String) (p : SeedPerm) : ∀ (ids : List Nat) (st : State),
+    Ext st.exprs (runRefs ks p st ids).1.exprs ∧
+    ids.all (settled (runRefs ks p st ids).1.exprs (fuelOf st)) = true ∧
+    (runRefs ks p st ids).2 = ids.map (pureName ks (runRefs ks p st ids).1.exprs (fuelOf st)) := by
+  intro ids
+  induction ids with
+  | nil => intro st; exact ⟨Ext.refl _, rfl, rfl⟩
+  | cons i is ih =>
+    intro st
+    obtain ⟨x1, s1, n1⟩ := makeRef_ext ks p (fuelOf st) st i
+    obtain ⟨x2, s2, n2⟩ := ih (makeRef ks p (fuelOf st) st i).1
+    rw [fuelOf_ext x1] at s2 n2
+    obtain ⟨s1', n1'⟩ := settled_mono ks x2 (fuelOf st) i s1
+    simp only [runRefs, List.all_cons, List.map_cons, Bool.and_eq_true]
+    exact ⟨x1.trans x2, ⟨s1', s2⟩, by rw [n1, n1', n2]⟩
+
+theorem runRefs_settled (ks : Nat → String) (p : SeedPerm) : ∀ (ids : List Nat) (st : State),
+    ids.all (settled st.exprs (fuelOf st)) = true →
+    runRefs ks p st ids = (st, ids.map (pureName ks st.exprs (fuelOf st))) := by
+  intro ids
+  induction ids with
+  | nil => intro st _; rfl
+  | cons i is ih =>
+    intro st h
+    simp only [List.all_cons, Bool.and_eq_true] at h
+    simp only [runRefs, makeRef_settled ks p (fuelOf st) st i h.1, ih st h.2, List.map_cons]
+
+/-- Asking again for the same references: same names, and the state does not move. -/
+theorem runRefs_idem (ks : Nat → String) (p : SeedPerm) (st : State) (ids : List Nat) :
+    runRefs ks p (runRefs ks p st ids).1 ids = ((runRefs ks p st ids).1, (runRefs ks p st ids).2) := by
+  obtain ⟨x, s, n⟩ := runRefs_ext ks p ids st
+  have hf := fuelOf_ext x
+  rw [← hf] at s n
+  rw [runRefs_settled ks p ids _ s, ← n]
+
+/-! ### Re-running the construction operations of a request hits the existing expressions -/
+
+def isBuild : Op → Bool
+  | .symbol _ _ => true
+  | .defaultLike _ => true
+  | .const _ _ _ => true
+  | .node _ _ => true
+  | _ => false
+
+/-- `st'` has all expressions of `st` (at the same indices) and the same cached default-like symbol. -/
+def Pre (st st' : State) : Prop :=
+  st.exprs <+: st'.exprs ∧ ∀ i, st.defaultLike = some i → st'.defaultLike = some i
+
+theorem Pre.refl (st : State) : Pre st st := ⟨List.prefix_refl _, fun _ h => h⟩
+
+theorem Pre.trans {a b c : State} (h₁ : Pre a b) (h₂ : Pre b c) : Pre a c :=
+  ⟨List.IsPrefix.trans h₁.1 h₂.1, fun i h => h₂.2 i (h₁.2 i h)⟩
+
+theorem find_prefix {l l' : List ExprInfo} {q : ExprInfo → Bool} {i : Nat} (h : l.findIdx? q = some i)
+    (hp : l <+: l') : l'.findIdx? q = some i := by
+  obtain ⟨t, rfl⟩ := hp
+  simp [List.findIdx?_append, h]
+
+theorem mkExpr_pre (st : State) (k : String) (p : Payload) (ops : List Nat) : Pre st (mkExpr st k p ops).1 := by
+  unfold mkExpr
+  cases st.exprs.findIdx? (sameKey k p ops) with
+  | some i => exact Pre.refl st
+  | none => exact ⟨List.prefix_append _ _, fun _ h => h⟩
+
+theorem mkExpr_again (st st' : State) (k : String) (p : Payload) (ops : List Nat)
+    (h : Pre (mkExpr st k p ops).1 st') : mkExpr st' k p ops = (st', (mkExpr st k p ops).2) := by
+  unfold mkExpr at h ⊢
+  cases hf : st.exprs.findIdx? (sameKey k p ops) with
+  | some i =>
+    rw [hf] at h
+    simp only [] at h ⊢
+    rw [find_prefix hf h.1]
+  | none =>
+    rw [hf] at h
+    simp only [appendExpr] at h ⊢
+    have hfind : ∀ e : ExprInfo, sameKey k p ops e = true →
+        (st.exprs ++ [e]).findIdx? (sameKey k p ops) = some st.exprs.length := by
+      intro e he
+      simp [List.findIdx?_append, hf, List.findIdx?_cons, he]
+    rw [find_prefix (hfind _ (by simp [sameKey])) h.1]
+
+theorem step_pre (amb : Ambient) (st : State) (op : Op) (hb : isBuild op = true) : Pre st (step amb st op).2.1 := by
+  cases op with
+  | symbol s t => exact mkExpr_pre st _ _ _
+  | const a b l => exact mkExpr_pre st _ _ _
+  | node k ops => exact mkExpr_pre st _ _ _
+  | defaultLike t =>
+    simp only [step]
+    cases hd : st.defaultLike with
+    | some i => exact Pre.refl st
+    | none => exact ⟨List.prefix_append _ _, fun i h => by rw [hd] at h; cases h⟩
+  | _ => simp [isBuild] at hb
+
+theorem step_again (amb amb' : Ambient) (st st' : State) (op : Op) (hb : isBuild op = true)
+    (h : Pre (step amb st op).2.1 st') : (step amb' st' op).2 = (st', (step amb st op).2.2) := by
+  cases op with
+  | symbol s t =>
+    simp only [step] at h ⊢
+    rw [mkExpr_again st st' _ _ _ h]
+  | const a b l =>
+    simp only [step] at h ⊢
+    rw [mkExpr_again st st' _ _ _ h]
+  | node k ops =>
+    simp only [step] at h ⊢
+    rw [mkExpr_again st st' _ _ _ h]
+  | defaultLike t =>
+    simp only [step] at h ⊢
+    cases hd : st.defaultLike with
+    | some i =>
+      rw [hd] at h
+      rw [h.2 i hd]
+    | none =>
+      rw [hd] at h
+      simp only [] at h ⊢
+      rw [h.2 _ rfl]
+  | _ => simp [isBuild] at hb
+
+theorem run_pre (amb : Ambient) : ∀ (ops : List Op) (st : State), (∀ op ∈ ops, isBuild op = true) →
+    Pre st (run amb st ops).2.1 := by
+  intro ops
+  induction ops generalizing amb with
+  | nil => intro st _; exact Pre.refl st
+  | cons op ops ih =>
+    intro st hb
+    simp only [run]
+    exact (step_pre amb st op (hb op List.mem_cons_self)).trans
+      (ih _ _ (fun o ho => hb o (List.mem_cons_of_mem _ ho)))
+
+theorem run_again (amb' : Ambient) : ∀ (ops : List Op) (amb : Ambient) (st st' : State),
+    (∀ op ∈ ops, isBuild op = true) → Pre (run amb st ops).2.1 st' →
+    (run amb' st' ops).2 = (st', (run amb st ops).2.2) := by
+  intro ops
+  induction ops generalizing amb' with
+  | nil => intro amb st st' _ _; rfl
+  | cons op ops ih =>
+    intro amb st st' hb h
+    have hb1 := hb op List.mem_cons_self
+    have hb2 : ∀ o ∈ ops, isBuild o = true := fun o ho => hb o (List.mem_cons_of_mem _ ho)
+    simp only [run] at h ⊢
+    have h1 : Pre (step amb st op).2.1 st' := (run_pre _ ops _ hb2).trans h
+    have e1 := step_again amb amb' st st' op hb1 h1
+    have e2 := ih (step amb' st' op).1 (step amb st op).1 (step amb st op).2.1 st' hb2 h
+    have hs : (step amb' st' op).2.1 = st' := by rw [e1]
+    have ho : (step amb' st' op).2.2 = (step amb st op).2.2 := by rw [e1]
+    rw [hs, ho]
+    have e3 : (run (step amb' st' op).1 st' ops).2.1 = st' := by rw [e2]
+    have e4 : (run (step amb' st' op).1 st' ops).2.2 = (run (step amb st op).1 (step amb st op).2.1 ops).2.2 := by
+      rw [e2]
+    rw [e3, e4]
+
+theorem fuelOf_erase (st : State) : fuelOf st.erase = fuelOf st := by simp [fuelOf, State.erase]
+
+/-- A single safe `expr.ref`: whatever numbers the anonymous symbols carry and whatever the seed
+permutation, the same name comes back. -/
+theorem makeRef_tmp_unprinted (ks : Nat → String) (p q : SeedPerm) {st₁ st₂ : State} (h : st₁.erase = st₂.erase)
+    (i : Nat) (hs : refSafe st₁ i = true) :
+    (makeRef ks p (fuelOf st₁) st₁ i).2 = (makeRef ks q (fuelOf st₂) st₂ i).2 := by
+  have hs2 : refSafe st₂ i = true := by rw [← refSafe_of_erase_eq h]; exact hs
+  have g1 := (makeRef_good ks p (fuelOf st₁)).name_eq st₁ i hs
+  have g2 := (makeRef_good ks q (fuelOf st₂)).name_eq st₂ i hs2
+  have hf : fuelOf st₁ = fuelOf st₂ := by rw [← fuelOf_erase st₁, ← fuelOf_erase st₂, h]
+  rw [← g1, ← g2, h, hf, makeRef_perm ks p q]
+
+/-- A request that consists of emitted `ref` operations only is `runRefs`. -/
+theorem run_refs (amb : Ambient) : ∀ (ids : List Nat) (st : State),
+    run amb st (ids.map (fun i => Op.ref i true)) =
+      (amb, (runRefs natStr amb.seedPerm st ids).1, (runRefs natStr amb.seedPerm st ids).2.map Out.name) := by
+  intro ids
+  induction ids with
+  | nil => intro st; rfl
+  | cons i is ih =>
+    intro st
+    simp only [List.map_cons, run, step, runRefs, if_true]
+    rw [ih]
+
+theorem names_map_name (l : List String) : names (l.map Out.name) = l := by
+  induction l with
+  | nil => rfl
+  | cons a t ih => simp [names, ih]
 
 
 end FAVerif.RefNames
